@@ -9,7 +9,9 @@ NUM = 10
 LEVEL = "exploration"
 RULE = ("random runs over tolerances (6 decades), budgets, rhoend 1e-8..1e-2, restarts.rhoend_scale in {1,.9,.5,.1}, "
         "max_unsuccessful_restarts in {1,2,3,10}, soft/hard restarts, noise, slow-progress / false-success / noise-level exits, plus per "
-        "reference run the exit-index and budget-index enumerations and a NaN fault at the last / a late evaluation. Oracle per claim on "
+        "reference run the exit-index and budget-index enumerations, a NaN fault at the last / a late evaluation, and source-free "
+        "failpoints (LinAlgError raised inside the Lagrange solve at the j-th call, j spread over the reference run) that drive the "
+        "restart blocks which only a linear-algebra failure reaches. Oracle per claim on "
         "the result and the captured controllers: 'sufficiently small' => obj <= max(abs_tol, rel_tol*f(x0)) with f(x0) recomputed from "
         "the recorded samples; 'rho has reached rhoend' => last controller's rho == rhoend*scale^restarts exactly (recomputed with the "
         "same arithmetic); max-evals flag => nf == maxfun == #calls; 'unsuccessful restarts' => runs >= max_unsuccessful_restarts; "
@@ -21,6 +23,7 @@ ASSUMPTIONS = ["restarts are counted by harness wrappers around solve_main and C
 NENUM = {"quick": 70, "thorough": 1500}
 NRAND = {"quick": 900, "thorough": 20000}
 NFAULT = {"quick": 120, "thorough": 2500}
+NFAILPT = {"quick": 90, "thorough": 1500}
 CASE_TIMEOUT = {"quick": 300, "thorough": 900}
 NSAMPLES = 5
 MIN_EXIT_RECORDS = {"quick": 12, "thorough": 16}
@@ -40,7 +43,7 @@ def cases(tier, seed):
     i = 0
     for p in PINNED:
         out.append(dict(i=i, seed=seed, type="pinned", **p)); i += 1
-    for t, n in (("enum", NENUM[tier]), ("rand", NRAND[tier]), ("fault", NFAULT[tier])):
+    for t, n in (("enum", NENUM[tier]), ("rand", NRAND[tier]), ("fault", NFAULT[tier]), ("failpoint", NFAILPT[tier])):
         for _ in range(n):
             out.append(dict(i=i, seed=seed, type=t)); i += 1
     return out
@@ -49,6 +52,7 @@ def cases(tier, seed):
 def setup():
     engine.install_core_monitors()
     engine.install_log_tap()
+    engine.install_failpoints()
 
 
 def make_cfg(seed, i, typ):
@@ -71,6 +75,24 @@ def make_cfg(seed, i, typ):
                 up["restarts.max_unsuccessful_restarts"] = int(gen.pick(rng, [1, 2, 3, 10]))
             if r() < 0.3:
                 cfg["args"]["rhoend"] = 1e-2 * (cfg["args"].get("rhobeg") or 0.1)
+    elif typ == "failpoint":
+        # restart-heavy configurations (soft mostly): an injected linear-algebra failure in the Lagrange solve then takes the
+        # soft-restart call site of whichever step asked for it (point replacement, geometry step, regression step, growing ...)
+        cfg = campaign.gen_cfg(rng, restarts_p=1.0, term_p=0.0, reg_p=0.0, proj_p=0.0, maxfuns=(40, 60, 90), nmax=3, npt_p=0.5,
+                               allow=("restarts", "regression", "growing"), averaging_p=0.15, noise_p=0.2)
+        n = cfg["prob"]["n"]
+        if r() < 0.3 and n > 1 and cfg["args"].get("npt") in (None, n + 1) and "restarts.increase_npt" not in cfg["user_params"]:
+            # growing phase with several new directions per iteration and safety steps: the restart blocks of the growing code
+            cfg["args"].pop("npt", None)
+            cfg["user_params"].update({"growing.ndirs_initial": int(rng.integers(1, n)), "growing.num_new_dirns_each_iter": int(rng.integers(1, 4))})
+            if r() < 0.5:
+                cfg["user_params"]["growing.safety.full_geom_step"] = True
+            cfg["user_params"].pop("growing.safety.reduce_delta", None)
+        if r() < 0.15:
+            cfg["user_params"].pop("restarts.use_restarts", None)
+            cfg["args"].pop("objfun_has_noise", None)
+            if cfg["prob"].get("noise"):
+                cfg["args"]["objfun_has_noise"] = False
     else:
         cfg = campaign.gen_cfg(rng, deterministic=True, restarts_p=0.3, term_p=0.0, reg_p=0.0, proj_p=0.0, maxfuns=(100, 200),
                                allow=("restarts", "tols"))
@@ -159,8 +181,14 @@ def check(run, cfg, res, tag):
     res["viol"].extend(viol[:5])
 
 
-def one_run(cfg, res, tag):
-    run = gen.run_cfg(cfg, timeout=(150 if cfg.get("proj") else 60))
+def one_run(cfg, res, tag, fail_at=None):
+    ctx = engine.Ctx()
+    if fail_at is not None:
+        ctx.extra["lagrange_fail_at"] = fail_at
+    run = gen.run_cfg(cfg, ctx=ctx, timeout=(150 if cfg.get("proj") else 60))
+    if fail_at is not None and ctx.extra.get("lagrange_failed_from"):
+        k = "failpoint_fired_in|" + ctx.extra["lagrange_failed_from"]
+        res["stats"][k] = res["stats"].get(k, 0) + 1
     oracles.common_stats(run, res["stats"])
     check(run, cfg, res, tag)
     if run.timeout:
@@ -189,6 +217,13 @@ def run_case(case):
                 one_run(c2, res, "NaN at call %d of %d" % (k, nf))
                 nder += 1
                 res["stats"]["fault_runs"] = res["stats"].get("fault_runs", 0) + 1
+    if typ == "failpoint" and ref.exc is None:
+        L = ref.ctx.extra.get("lagrange_calls", 0)
+        js = sorted(set(int(v) for v in np.unique(np.linspace(1, max(L, 1), 10).astype(int)))) if L else []
+        for j in js:
+            one_run(cfg, res, "LinAlgError injected at Lagrange solve %d of %d" % (j, L), fail_at=j)
+            nder += 1
+            res["stats"]["failpoint_runs"] = res["stats"].get("failpoint_runs", 0) + 1
     if case["i"] % 80 == 0 or typ == "pinned":
         s = ref.soln
         res["sample"] = dict(case=case["i"], type=typ, prob=cfg["prob"], args=cfg["args"], user_params=cfg["user_params"],
@@ -212,6 +247,8 @@ def finalize(agg):
     cov = dict(evaluations=int(st.get("runs", 0)), objfun_calls=int(st.get("objfun_calls", 0)), results_checked=int(st.get("results_checked", 0)),
                claims_evaluated={k[6:]: int(v) for k, v in st.items() if k.startswith("claim|")},
                exit_records_ending_a_run=recs, soft_restart_call_sites_reached=sites,
+               failpoint_runs=int(st.get("failpoint_runs", 0)),
+               failpoints_fired_in={k.split("|")[1]: int(v) for k, v in st.items() if k.startswith("failpoint_fired_in|")},
                soft_restart_call_sites_note="solver.py has 16 call sites of soft_restart; those not listed were not observed in this run and the "
                                             "restart-count claim is decided only for the ones that were",
                restarts_seen=dict(soft=int(st.get("soft_restarts", 0)), hard=int(st.get("hard_restarts", 0))),
